@@ -159,10 +159,30 @@ func VerifC15_LatestTimestamp(h *zz.H) {
 	any := false
 	K := h.Param("K", 2)
 	for k := 0; k < K; k++ {
-		idx := vIdx(h, "u", 1, 2)
-		h.Assume(idx[0] != "meta")
 		ts := h.Int64("ts")
 		h.Assume(ts > 0)
+		if h.Param("MULTI", 1) == 1 && h.Range("bundle", 0, 1) == 1 {
+			// a bundle of two updates in one non-atomic notification: each is accepted or refused
+			// on its own (a refused sibling - schema collision, stale - does not undo the other)
+			i1, i2 := vIdx(h, "b1", 1, 2), vIdx(h, "b2", 1, 2)
+			h.Assume(i1[0] != "meta" && i2[0] != "meta")
+			n := &pb.Notification{Timestamp: ts, Prefix: &pb.Path{Target: vDev}, Update: []*pb.Update{
+				{Path: &pb.Path{Elem: vElems(i1)}, Val: vIntVal(h.Int64("v"))}, {Path: &pb.Path{Elem: vElems(i2)}, Val: vIntVal(h.Int64("v"))}}}
+			err := c.GnmiUpdate(n)
+			for _, idx := range [][]string{i1, i2} {
+				// stored with this timestamp => accepted at this timestamp (now or earlier)
+				if st := vStored(c, vDev, idx); st != nil && st.Timestamp == ts {
+					if !any || ts > max {
+						max = ts
+					}
+					any = true
+				}
+			}
+			h.Trace("bundle", err == nil)
+			continue
+		}
+		idx := vIdx(h, "u", 1, 2)
+		h.Assume(idx[0] != "meta")
 		n := vUpdate(vDev, idx, vStyle(h, "style", idx, vStyles), ts, vIntVal(h.Int64("v")))
 		if c.GnmiUpdate(n) == nil {
 			if !any || ts > max {
@@ -174,6 +194,9 @@ func VerifC15_LatestTimestamp(h *zz.H) {
 	c.UpdateMetadata()
 	if any {
 		h.Assert(vMetaInt(c, vDev, metadata.LatestTimestamp) == max, "C15: the exported latest timestamp is the greatest accepted target timestamp")
+	}
+	for _, l := range vDataLeaves(c, vDev) {
+		h.Assert(vMetaInt(c, vDev, metadata.LatestTimestamp) >= l.n.Timestamp, "C15: the exported latest timestamp is not older than any stored leaf")
 	}
 	ln := vStored(c, vDev, metadata.Path(metadata.LatestTimestamp))
 	if any && ln != nil {
